@@ -444,6 +444,100 @@ theorem langSegs_unique : ∀ {segs : List Seg} {m : List Char} {vals vals' : Li
         obtain ⟨rfl, rfl⟩ := hw
         rw [langSegs_unique hsep h1 h2]
 
+/-! ### a trailing tail segment swallows the whole rest (this is about the greedy priority) -/
+
+theorem matchRep_any_total {α : Type} (k : Nat → List Char → Option α)
+    (hk : ∀ pos s, (k pos s).isSome = true) :
+    ∀ (s : List Char) (pos : Nat), matchRep .any 0 none s pos k = k (pos + blen s) []
+  | [], pos => by simp [matchRep, blen]
+  | c :: cs, pos => by
+    simp only [matchRep, Atom.matches, Option.map_none, Bool.true_and]
+    have ih := matchRep_any_total k hk cs (pos + c.utf8Size)
+    simp only [Nat.zero_sub] at ih ⊢
+    rw [ih]
+    have hsome := hk (pos + c.utf8Size + blen cs) []
+    cases h : k (pos + c.utf8Size + blen cs) [] with
+    | none => rw [h] at hsome; cases hsome
+    | some r =>
+      simp only [blen]
+      rw [← Nat.add_assoc, h]
+      have : ((none : Option Nat) != some 0) = true := by decide
+      simp [this]
+
+theorem matchSegs_append {α : Type} : ∀ (a b : List Seg) (s : List Char) (pos : Nat) (caps : Caps)
+    (k : Nat → List Char → Caps → Option α),
+    matchSegs (a ++ b) s pos caps k =
+      matchSegs a s pos caps (fun pos' s' caps' => matchSegs b s' pos' caps' k)
+  | [], b, s, pos, caps, k => rfl
+  | .const cs :: rest, b, s, pos, caps, k => by
+    simp only [List.cons_append, matchSegs]
+    cases stripPrefix cs s with
+    | none => rfl
+    | some s' => exact matchSegs_append rest b s' _ caps k
+  | .var n re :: rest, b, s, pos, caps, k => by
+    simp only [List.cons_append, matchSegs]
+    congr 1
+    funext pos' s'
+    exact matchSegs_append rest b s' pos' _ k
+
+theorem captures_tail_whole (d : DynPat) (pre : List Seg) (n : Name)
+    (hd : d.segs = pre ++ [.var n tailRe]) (hs : d.suffix = .open) (path : List Char)
+    (len : Nat) (caps : Caps) (h : d.captures path = some (len, caps)) : len = blen path := by
+  unfold DynPat.captures at h
+  rw [hd, matchSegs_append] at h
+  have hinner : (fun pos' s' caps' => matchSegs [.var n tailRe] s' pos' caps'
+        (fun pos rest caps => if d.suffix.ok rest = true then some (pos, caps) else none)) =
+      (fun pos' s' (caps' : Caps) => some (pos' + blen s', caps' ++ [(n, pos', pos' + blen s')])) := by
+    funext pos' s' caps'
+    simp only [matchSegs, matchRe, tailRe]
+    rw [matchRep_any_total _ (by intro p s; simp [hs, Suffix.ok])]
+    simp [hs, Suffix.ok]
+  rw [hinner] at h
+  obtain ⟨m, v, vals, hp, _, hk⟩ := matchSegs_some _ _ _ _ _ _ h
+  injection hk with hk
+  injection hk with h1 _
+  rw [hp, blen_append]
+  omega
+
+/-! ### `parse_param` on `{name}` and `{name}*` -/
+
+theorem findClose_plain : ∀ (name rest : List Char), '{' ∉ name → '}' ∉ name →
+    findClose (name ++ '}' :: rest) 1 = some name.length
+  | [], rest, _, _ => by simp [findClose]
+  | c :: name, rest, h1, h2 => by
+    have hc1 : c ≠ '{' := fun e => h1 (by simp [e])
+    have hc2 : c ≠ '}' := fun e => h2 (by simp [e])
+    simp only [List.cons_append, findClose, if_neg hc1, if_neg hc2]
+    rw [findClose_plain name rest (fun h => h1 (List.mem_cons_of_mem _ h))
+      (fun h => h2 (List.mem_cons_of_mem _ h))]
+    simp
+
+theorem findChar_none : ∀ (c : Char) (s : List Char), c ∉ s → findChar c s = none
+  | _, [], _ => rfl
+  | c, x :: xs, h => by
+    have hx : x ≠ c := fun e => h (by simp [e])
+    simp only [findChar, if_neg hx, findChar_none c xs (fun h' => h (List.mem_cons_of_mem _ h')),
+      Option.map_none]
+
+theorem parseParam_plain (name rest : List Char) (hn : plainName name) :
+    parseParam ('{' :: name ++ '}' :: rest) =
+      if rest = ['*'] then .ok ⟨name, tailRe, [], true⟩ else .ok ⟨name, defaultRe, rest, false⟩ := by
+  obtain ⟨h1, h2, h3⟩ := hn
+  have hclose : findClose ('{' :: name ++ '}' :: rest) 0 = some (name.length + 1) := by
+    simp only [List.cons_append, findClose, if_true]
+    rw [findClose_plain name rest h1 h2]; rfl
+  unfold parseParam
+  rw [hclose]
+  have hparam : (List.take (name.length + 1) ('{' :: name ++ '}' :: rest)).drop 1 = name := by
+    simp
+  have hunp : List.drop (name.length + 1 + 1) ('{' :: name ++ '}' :: rest) = rest := by
+    simp
+  simp only [hparam, hunp, findChar_none ':' name h3]
+  by_cases hr : rest = ['*']
+  · subst hr; simp
+  · have : (rest == ['*']) = false := by simpa using hr
+    simp [this, hr]
+
 /-! ### what `parse` guarantees -/
 
 theorem parse_ok {pattern : List Char} {isPrefix forceDynamic : Bool} {pt : PatType} {segs : List Seg}
